@@ -3,6 +3,8 @@ import ast
 
 from xlsa import Unmodelled, AnchorMissing
 from xlsa.load import walk_local, names_in, dotted
+from xlsa.consteval import Ref
+from xlsa.guards import Interp, Rec, PyModel, Opaque
 from xlsa import flow
 from .common import func_params, value_returns, last_return
 
@@ -21,188 +23,201 @@ NOT_DECIDED = ('the SpreadsheetML storage forms, shared-formula expansion and th
 TRUSTED = ['openpyxl cell attributes (.coordinate, .data_type, .value) and defined_names mapping']
 
 
-def rule_1(ctx):
+class _Book(PyModel):
+    def __init__(self, sheets, names):
+        self.sheetnames = list(sheets)
+        self._sheets = sheets
+        self.defined_names = names
+
+    def __getitem__(self, name):
+        return self._sheets[name]
+
+
+class _Sheet(PyModel):
+    def __init__(self, cells):
+        self._cells = cells
+
+
+def _ocell(coord, dtype, value, cvalue=None):
+    return Rec(coordinate=coord, data_type=dtype, value=value, cvalue=cvalue)
+
+
+def _reader_models():
+    return {'pkg:utils:resolve_sheet': lambda t: t.strip().strip("'")}
+
+
+def _isinst(ctx):
+    def isinst(val, refs):
+        refs = refs if isinstance(refs, tuple) else (refs,)
+        if any(r == 'builtin:str' for r in refs) and isinstance(val, str):
+            return True
+        cls = val.f.get('cls') if isinstance(val, Rec) else getattr(val, 'cls', None)
+        return bool(cls) and isinstance(cls, str) and any(r and ctx.res.is_subclass(cls, r) for r in refs)
+    return isinst
+
+
+def _read_cells(ctx, ignore):
     rm = ctx.mod('reader')
     rc = rm.func('Reader.read_cells')
     p = func_params(rc)
-    ign = p[1]
-    rets = value_returns(rc)
-    maps = set()
-    for r in rets:
-        maps |= names_in(r.value)
-    stores = [a for a in walk_local(rc) if isinstance(a, ast.Assign) and any(
-        isinstance(t, ast.Subscript) and isinstance(t.value, ast.Name) and t.value.id in maps for t in a.targets)]
-    if not stores:
-        raise AnchorMissing('read_cells: no stores into the returned maps')
-    for a in stores:
-        t = next(t for t in a.targets if isinstance(t, ast.Subscript))
-        conds = flow.path_conditions(a)
-        ok = False
-        for c in conds:
-            if c.kind == 'guard' and not c.polarity and isinstance(c.test, ast.Compare) and len(c.test.ops) == 1 \
-                    and isinstance(c.test.ops[0], ast.In) and isinstance(c.test.comparators[0], ast.Name) \
-                    and c.test.comparators[0].id == ign:
-                ok = True
-            if c.kind == 'if' and c.polarity and isinstance(c.test, ast.Compare) and isinstance(c.test.ops[0], ast.NotIn) \
-                    and isinstance(c.test.comparators[0], ast.Name) and c.test.comparators[0].id == ign:
-                ok = True
-        ctx.expect(ok, a, f'insertion into `{t.value.id}` is skipped for ignored sheets',
-                   f'cells of ignored sheets are inserted into `{t.value.id}`: ignored sheets must contribute no cells')
-    # the tested name is the sheet whose cells are read
-    loops = [n for n in walk_local(rc) if isinstance(n, ast.For) and 'sheetnames' in ast.unparse(n.iter)]
-    ctx.expect(len(loops) == 1, rc, 'loop over all sheet names', 'read_cells does not iterate book.sheetnames')
-    ctx.floor(3, 'map insertions')
+    book = _Book({
+        'S1': _Sheet({(1, 1): _ocell('A1', 'n', 5), (1, 2): _ocell('B1', 'f', '=A1*2', 10), (2, 1): _ocell('A2', 's', 'txt')}),
+        'Ign': _Sheet({(1, 1): _ocell('A1', 'n', 1), (1, 2): _ocell('B1', 'f', '=A1+1', 2)}),
+        'My Sheet': _Sheet({(1, 1): _ocell('A1', 'b', True)}),
+    }, {})
+    env = {p[0]: Rec(book=book), p[1]: list(ignore)}
+    if len(p) > 2:
+        env[p[2]] = False
+    it = Interp(ctx.a, rm, env, isinstance_fn=_isinst(ctx), inline_pkg=True, scope_fn=rc, self_class='pkg:reader:Reader',
+                call_models=_reader_models())
+    return rc, it.run(rc.body)
 
 
-def rule_2(ctx):
+def rule_1(ctx):
+    for ignore, want in ((['Ign'], {'S1!A1', 'S1!B1', 'S1!A2', 'My Sheet!A1'}), ([], {'S1!A1', 'S1!B1', 'S1!A2', 'Ign!A1', 'Ign!B1', 'My Sheet!A1'}),
+                         (['Ign', 'My Sheet'], {'S1!A1', 'S1!B1', 'S1!A2'}), (['S1', 'Ign', 'My Sheet'], set())):
+        try:
+            rc, out = _read_cells(ctx, ignore)
+        except Unmodelled as exc:
+            raise Unmodelled(f'read_cells: {exc}')
+        if out.end != 'return' or not isinstance(out.value, (list, tuple)) or len(out.value) != 3:
+            raise Unmodelled(f'read_cells ends in {out.end} {out.value!r}')
+        cells, formulae = out.value[0], out.value[1]
+        got = set(cells) if isinstance(cells, dict) else cells
+        ctx.expect(got == want, rc, f'cells loaded when {ignore} is ignored',
+                   f'loading with ignore_sheets={ignore} yields the cells {sorted(got) if isinstance(got, set) else got}, expected {sorted(want)}: '
+                   'ignored sheets contribute no cells, every other stored cell is loaded under Sheet!Coordinate')
+        fwant = {k for k in want if k.endswith('!B1')}
+        fgot = set(formulae) if isinstance(formulae, dict) else formulae
+        ctx.expect(fgot == fwant, rc, f'formulae loaded when {ignore} is ignored',
+                   f'the formulae map holds {sorted(fgot) if isinstance(fgot, set) else fgot}, expected {sorted(fwant)}')
+    ctx.floor(8, 'ignore subsets x maps')
+
+
+def _read_names(ctx, ignore):
     rm = ctx.mod('reader')
     rd = rm.func('Reader.read_defined_names')
     p = func_params(rd)
-    ign = p[1]
-    deps = flow.Deps(rd)
-    filt = set()
-    for n in walk_local(rd):
-        if isinstance(n, ast.comprehension):
-            for c in n.ifs:
-                filt |= names_in(c)
-        elif isinstance(n, ast.If):
-            filt |= names_in(n.test)
-    ok = ign in deps.closure(filt)
-    ctx.expect(ok, rd, f'read_defined_names({ign}) reaches the filter',
-               f'parameter {ign} is never used by read_defined_names: a name bound to a range on an ignored sheet is kept and '
-               'loading raises KeyError (its cells were not loaded)')
-    # the filter compares the sheet of the target with the ignore list
-    tests_membership = any(isinstance(c, ast.Compare) and isinstance(c.ops[0], (ast.NotIn,)) and ign in names_in(c.comparators[0])
-                           for n in walk_local(rd) if isinstance(n, ast.comprehension) for cc in n.ifs for c in ast.walk(cc))
-    ctx.expect(tests_membership, rd, 'names on ignored sheets are dropped (not in ignore list)',
-               'the defined-name filter does not test "sheet not in ignore_sheets"')
+    names = {
+        'a': Rec(name='a', value='Data!$A$1', hidden=None),
+        'b': Rec(name='b', value='Ignored!$A$1:$B$2', hidden=None),
+        'c': Rec(name='c', value="'My Sheet'!$C$1", hidden=None),
+        'd': Rec(name='d', value='#REF!', hidden=None),
+        'e': Rec(name='e', value='Data!$E$1', hidden=True),
+    }
+    env = {p[0]: Rec(book=_Book({}, names)), p[1]: list(ignore)}
+    if len(p) > 2:
+        env[p[2]] = False
+    it = Interp(ctx.a, rm, env, isinstance_fn=_isinst(ctx), inline_pkg=True, scope_fn=rd, self_class='pkg:reader:Reader',
+                call_models=_reader_models())
+    return rd, it.run(rd.body)
+
+
+def rule_2(ctx):
+    for ignore, want in (([], {'a', 'b', 'c'}), (['Ignored'], {'a', 'c'}), (['Ignored', 'My Sheet'], {'a'}), (['Data'], {'b', 'c'})):
+        try:
+            rd, out = _read_names(ctx, ignore)
+        except Unmodelled as exc:
+            raise Unmodelled(f'read_defined_names: {exc}')
+        got = set(out.value) if out.end == 'return' and isinstance(out.value, dict) else f'<{out.end} {out.value!r}>'
+        ctx.expect(got == want, rd, f'defined names read when {ignore} is ignored',
+                   f'with ignore_sheets={ignore} the defined names read are {sorted(got) if isinstance(got, set) else got}, expected {sorted(want)}: '
+                   'names bound to ignored sheets (quoted or not), broken (#REF!) and hidden names are dropped - otherwise loading raises KeyError '
+                   'for a range on a sheet whose cells were not loaded')
+        if isinstance(out.value, dict) and 'a' in out.value:
+            ctx.expect(out.value['a'] == 'Data!$A$1', rd, f'name -> target text when {ignore} is ignored', 'the target text of a defined name is altered')
     ctx.note('ignore_hidden is accepted but unused by both readers: outside the statement (allow-listed)')
     mm = ctx.mod('model')
     pa = mm.func('ModelCompiler.parse_archive')
     pp = func_params(pa)
     for attr in ('read_cells', 'read_defined_names'):
         calls = [c for c in flow.calls_in(pa) if isinstance(c.func, ast.Attribute) and c.func.attr == attr]
-        ok = len(calls) == 1 and calls[0].args and isinstance(calls[0].args[0], ast.Name) and calls[0].args[0].id == pp[2]
+        ok = len(calls) == 1 and ((calls[0].args and isinstance(calls[0].args[0], ast.Name) and calls[0].args[0].id == pp[2]) or any(
+            k.arg == 'ignore_sheets' and isinstance(k.value, ast.Name) and k.value.id == pp[2] for k in calls[0].keywords))
         ctx.expect(ok, pa, f'parse_archive passes ignore_sheets to {attr}', f'{attr} is not called with the caller\'s ignore list')
     ra = mm.func('ModelCompiler.read_and_parse_archive')
     calls = [c for c in flow.calls_in(ra) if isinstance(c.func, ast.Attribute) and c.func.attr == 'parse_archive']
-    ok = len(calls) == 1 and any(k.arg == 'ignore_sheets' and isinstance(k.value, ast.Name) and k.value.id == 'ignore_sheets'
-                                 for k in calls[0].keywords) or (calls and len(calls[0].args) > 1)
+    ok = len(calls) == 1 and (any(k.arg == 'ignore_sheets' and isinstance(k.value, ast.Name) and k.value.id == 'ignore_sheets'
+                                  for k in calls[0].keywords) or len(calls[0].args) > 1)
     ctx.expect(ok, ra, 'read_and_parse_archive forwards ignore_sheets', 'ignore_sheets is not forwarded to parse_archive')
-    ctx.floor(5, 'ignore list plumbing')
+    ctx.floor(8, 'ignore list plumbing')
 
 
 def rule_3(ctx):
-    rm = ctx.mod('reader')
-    rc = rm.func('Reader.read_cells')
-    cons = [c for c in flow.calls_in(rc) if ctx.res.resolve(c.func, rm) == 'pkg:xltypes:XLCell']
-    if len(cons) != 1:
-        raise AnchorMissing(f'read_cells: {len(cons)} XLCell constructions')
-    c = cons[0]
-    kw = {k.arg: k.value for k in c.keywords}
-    addr = c.args[0] if c.args else kw.get('address')
-    value = c.args[1] if len(c.args) > 1 else kw.get('value')
-    formula = c.args[2] if len(c.args) > 2 else kw.get('formula')
-    # address = f'{sheet_name}!{cell.coordinate}'
-    a_assign = [a for a in walk_local(rc) if isinstance(a, ast.Assign) and isinstance(addr, ast.Name)
-                and any(isinstance(t, ast.Name) and t.id == addr.id for t in a.targets)]
-    ok = len(a_assign) == 1 and isinstance(a_assign[0].value, ast.JoinedStr)
-    if ok:
-        parts = a_assign[0].value.values
-        exprs = [ast.unparse(v.value) for v in parts if isinstance(v, ast.FormattedValue)]
-        lits = ''.join(v.value for v in parts if isinstance(v, ast.Constant))
-        ok = len(exprs) == 2 and exprs[1].endswith('.coordinate') and lits == '!' and 'sheet' in exprs[0]
-    ctx.expect(ok, rc, 'cell address = sheet!coordinate', 'the address of a loaded cell is not "<sheet name>!<coordinate>"')
-    def _is_f(t):
-        if not (isinstance(t, ast.Compare) and len(t.ops) == 1 and isinstance(t.ops[0], ast.Eq)):
-            return False
-        a, b = t.left, t.comparators[0]
-        return any('data_type' in ast.unparse(x) and isinstance(y, ast.Constant) and y.value == 'f' for x, y in ((a, b), (b, a)))
-    fbranch = [n for n in walk_local(rc) if isinstance(n, ast.If) and _is_f(n.test)]
-    if len(fbranch) != 1:
-        raise AnchorMissing('read_cells: data_type == "f" branch')
-    fb = fbranch[0]
+    try:
+        rc, out = _read_cells(ctx, ['Ign'])
+    except Unmodelled as exc:
+        raise Unmodelled(f'read_cells: {exc}')
+    if out.end != 'return' or len(out.value) != 3:
+        raise Unmodelled(f'read_cells ends in {out.end} {out.value!r}')
+    cells, formulae, ranges = out.value
 
-    def last_assign(stmts, name):
-        out = None
-        for s in stmts:
-            for a in ast.walk(s):
-                if isinstance(a, ast.Assign) and any(isinstance(t, ast.Name) and t.id == name for t in a.targets):
-                    out = a
-        return out
-
-    vname = value.id if isinstance(value, ast.Name) else None
-    fname = formula.id if isinstance(formula, ast.Name) else None
-    if not vname or not fname:
-        raise Unmodelled('XLCell(value=, formula=) are not local names')
-    v_f = last_assign(fb.body, vname)
-    v_e = last_assign(fb.orelse, vname)
-    f_f = last_assign(fb.body, fname)
-    f_e = last_assign(fb.orelse, fname)
-    ctx.expect(v_f is not None and ast.unparse(v_f.value).endswith('.cvalue'), fb, 'formula cell value = cached result',
-               'a formula cell does not store the cached result (cvalue) as its value')
-    ctx.expect(v_e is not None and ast.unparse(v_e.value).endswith('.value'), fb, 'constant cell value = cell value',
-               'a constant cell does not store the cell value')
-    ctx.expect(f_e is not None and isinstance(f_e.value, ast.Constant) and f_e.value.value is None, fb,
-               'constant cell has no formula', 'a constant cell gets a formula object')
-    ok = f_f is not None and isinstance(f_f.value, ast.Call) and ctx.res.resolve(f_f.value.func, rm) == 'pkg:xltypes:XLFormula'
-    sheet_ok = ok and len(f_f.value.args) >= 2 and 'sheet' in ast.unparse(f_f.value.args[1])
-    ctx.expect(ok and sheet_ok, fb, 'formula cell formula = XLFormula(text, sheet)',
-               'the formula object is not built from the formula text and the sheet of the cell')
-    if ok:
-        deps = flow.Deps(rc)
-        src = deps.closure(names_in(f_f.value.args[0]))
-        ctx.expect(any(ast.unparse(a.value).endswith('.value') for a in walk_local(rc) if isinstance(a, ast.Assign)
-                       and any(isinstance(t, ast.Name) and t.id in src | names_in(f_f.value.args[0]) for t in a.targets)), fb,
-                   'formula text comes from cell.value', 'the formula text is not the stored cell value')
-    both = [a for s in fb.body for a in ast.walk(s) if isinstance(a, ast.Assign) and any(
-        isinstance(t, ast.Subscript) and isinstance(t.value, ast.Name) for t in a.targets)]
-    ok = any(isinstance(a.value, ast.Name) and a.value.id == fname and ast.unparse(a.targets[0].slice) == ast.unparse(addr) for a in both)
-    ctx.expect(ok, fb, 'formulae map receives the formula under the cell address', 'formulae[addr] is not set to the cell\'s formula')
+    def field(rec, name, pos):
+        if not isinstance(rec, Rec):
+            return f'<{rec!r}>'
+        if name in rec.f and name not in ('args', 'kwargs', 'cls'):
+            return rec.f[name]
+        if name in rec.f.get('kwargs', {}):
+            return rec.f['kwargs'][name]
+        a = rec.f.get('args', ())
+        return a[pos] if len(a) > pos else None
+    b1, a1, a2 = cells.get('S1!B1'), cells.get('S1!A1'), cells.get('S1!A2')
+    ctx.expect(isinstance(b1, Rec) and b1.f.get('cls') == 'pkg:xltypes:XLCell' and field(b1, 'address', 0) == 'S1!B1', rc,
+               'cell address = sheet!coordinate', 'a loaded cell is not an XLCell addressed "<sheet name>!<coordinate>"')
+    ctx.expect(field(b1, 'value', 1) == 10, rc, 'formula cell value = cached result',
+               f'a formula cell stores {field(b1, "value", 1)!r} as its value, expected the cached result 10')
+    fo = field(b1, 'formula', 2)
+    ok = isinstance(fo, Rec) and fo.f.get('cls') == 'pkg:xltypes:XLFormula' and field(fo, 'formula', 0) == '=A1*2' and field(fo, 'sheet_name', 1) == 'S1'
+    ctx.expect(ok, rc, 'formula cell formula = XLFormula(text, sheet)',
+               'the formula object of a formula cell is not built from its formula text and the sheet of the cell')
+    ctx.expect(formulae.get('S1!B1') is fo, rc, 'formulae map receives the formula under the cell address',
+               'formulae[addr] is not the formula object stored in the cell')
+    ctx.expect(field(a1, 'value', 1) == 5 and field(a1, 'formula', 2) is None and field(a2, 'value', 1) == 'txt', rc,
+               'constant cell: value, no formula', 'a constant cell does not store its value with no formula')
+    ctx.expect(isinstance(ranges, dict), rc, 'read_cells returns [cells, formulae, ranges]', 'read_cells returns its maps in another order')
     # patch: cached value captured
     pm = ctx.mod('patch')
     pc = pm.func('WorkSheetParser.parse_cell')
-    ok = any(isinstance(a, ast.Assign) and isinstance(a.targets[0], ast.Subscript) and isinstance(a.targets[0].slice, ast.Constant)
-             and a.targets[0].slice.value == 'cvalue' for a in walk_local(pc))
-    ctx.expect(ok, pc, 'patched parser records cvalue', 'the patched cell parser no longer records the cached value')
-    # must-define: every formula cell gets the key that bind_cells reads for every formula cell
-    stores = [a for a in walk_local(pc) if isinstance(a, ast.Assign) and isinstance(a.targets[0], ast.Subscript)
-              and isinstance(a.targets[0].slice, ast.Constant) and a.targets[0].slice.value == 'cvalue']
-    for a in stores:
+    stores = [a for a in walk_local(pc) if isinstance(a, ast.Assign) and isinstance(a.targets[0], ast.Subscript)]
+    cv = [a for a in stores if _const(ctx, pm, a.targets[0].slice) == 'cvalue']
+    ctx.expect(bool(cv), pc, 'patched parser records cvalue', 'the patched cell parser no longer records the cached value')
+    for a in cv:
         conds = [c for c in flow.path_conditions(a, check_kills=False) if c.kind in ('if', 'guard', 'while')]
+
         def conjuncts(t):
             if isinstance(t, ast.BoolOp) and isinstance(t.op, ast.And):
-                out = []
+                out_ = []
                 for v in t.values:
-                    out += conjuncts(v)
-                return out
+                    out_ += conjuncts(v)
+                return out_
             return [t]
 
         def is_f_test(t):
             if not (isinstance(t, ast.Compare) and len(t.ops) == 1 and isinstance(t.ops[0], ast.Eq)):
                 return False
             a_, b_ = t.left, t.comparators[0]
-            return any('data_type' in ast.unparse(x) and isinstance(y, ast.Constant) and y.value == 'f' for x, y in ((a_, b_), (b_, a_)))
+            return any('data_type' in ast.unparse(x) and _const(ctx, pm, y) == 'f' for x, y in ((a_, b_), (b_, a_)))
         only_f = all(c.polarity and all(is_f_test(x) for x in conjuncts(c.test)) for c in conds)
         ctx.expect(only_f and len(conds) <= 1, a, "cell['cvalue'] is set for every formula cell",
                    f"cell['cvalue'] is only set under `{' and '.join(ast.unparse(c.test)[:40] for c in conds)}` while bind_cells reads it "
                    "for every formula cell: a formula stored without a cached value (<c><f>..</f></c>) raises KeyError on load")
     bc = pm.func('WorksheetReader.bind_cells')
-    ok = any(isinstance(a, ast.Assign) and isinstance(a.targets[0], ast.Attribute) and a.targets[0].attr == 'cvalue'
-             and isinstance(a.value, ast.Subscript) and isinstance(a.value.slice, ast.Constant) and a.value.slice.value == 'cvalue'
-             for a in walk_local(bc))
-    ctx.expect(ok, bc, 'bound cell carries cvalue', 'bind_cells does not copy the cached value onto the cell')
     reads = [a for a in walk_local(bc) if isinstance(a, ast.Assign) and isinstance(a.value, ast.Subscript)
-             and isinstance(a.value.slice, ast.Constant) and a.value.slice.value == 'cvalue']
-    for a in reads:
-        conds = [c for c in flow.path_conditions(a, check_kills=False) if c.kind in ('if', 'guard')]
-        ctx.expect(len(conds) == 1 and "'f'" in ast.unparse(conds[0].test), a, "cell['cvalue'] is read for formula cells only",
-                   "bind_cells reads cell['cvalue'] outside the formula-cell branch")
-    rd = rm.func('Reader.read')
-    ok = any(isinstance(w, ast.With) and 'openpyxl_WorksheetReader_patch' in ast.unparse(w.items[0].context_expr)
-             and any('load_workbook' in ast.unparse(s) for s in w.body) for w in walk_local(rd))
+             and _const(ctx, pm, a.value.slice) == 'cvalue']
+    ok = any(isinstance(a.targets[0], ast.Attribute) and a.targets[0].attr == 'cvalue' for a in reads)
+    ctx.expect(ok, bc, 'bound cell carries cvalue', 'bind_cells does not copy the cached value onto the cell')
+    rd = ctx.mod('reader').func('Reader.read')
+    ok = any(isinstance(w, ast.With) and any('openpyxl_WorksheetReader_patch' in ast.unparse(i.context_expr) for i in w.items)
+             and any('load_workbook' in ast.unparse(s_) for s_ in w.body) for w in walk_local(rd))
     ctx.expect(ok, rd, 'workbook loaded under the cached-value patch', 'load_workbook is not called inside the WorksheetReader patch')
     ctx.floor(10, 'formula/constant cell dataflow')
+
+
+def _const(ctx, m, node):
+    try:
+        return ctx.fold(node, m)
+    except Exception:
+        return None
 
 
 def rule_4(ctx):
@@ -247,29 +262,10 @@ def rule_5(ctx):
     ok = bool(tgt) and isinstance(tgt[0].targets[0], ast.Tuple) and \
         [ast.unparse(e).split('.')[-1] for e in tgt[0].targets[0].elts] == ['cells', 'formulae', 'ranges']
     ctx.expect(ok, pa, 'read_cells result unpacked into cells, formulae, ranges', 'the maps returned by read_cells are bound to the wrong attributes')
-    rm = ctx.mod('reader')
-    rc = rm.func('Reader.read_cells')
-    r = last_return(rc)
-    ok = False
-    if r is not None and isinstance(r.value, (ast.List, ast.Tuple)) and len(r.value.elts) == 3 \
-            and all(isinstance(e, ast.Name) for e in r.value.elts):
-        # role of each returned map: what is stored into it
-        roles = []
-        for e in r.value.elts:
-            stored = [a for a in walk_local(rc) if isinstance(a, ast.Assign) and any(
-                isinstance(t, ast.Subscript) and isinstance(t.value, ast.Name) and t.value.id == e.id for t in a.targets)]
-            if any(isinstance(a.value, ast.Call) and ctx.res.resolve(a.value.func, rm) == 'pkg:xltypes:XLCell' for a in stored):
-                roles.append('cells')
-            elif stored:
-                roles.append('formulae')
-            else:
-                roles.append('ranges')
-        ok = roles == ['cells', 'formulae', 'ranges']
-    ctx.expect(ok, rc, 'read_cells returns [cells, formulae, ranges]', 'read_cells returns its maps in another order')
     rp = mm.func('ModelCompiler.read_and_parse_archive')
     ok = any(isinstance(n, ast.If) and 'build_code' in ast.unparse(n.test) and 'build_code()' in ast.unparse(n) for n in walk_local(rp))
     ctx.expect(ok, rp, 'formulas are compiled after loading', 'read_and_parse_archive does not build the formula ASTs')
-    ctx.floor(4, 'build order facts')
+    ctx.floor(3, 'build order facts')
 
 
 def rule_6(ctx):
